@@ -857,6 +857,67 @@ def shape_corner_part(R: Run, mods):
                         R.corr(line.replace("c11 out ", "c11 outshape ", 1), lambda real=real: real, sig=sig)
 
 
+
+def lookalike_part(R: Run, mods):
+    """look-alike custom CRSs: near-copies of registry definitions (same name, same method, a shifted central meridian /
+    origin / false easting, no authority code) as source or destination next to the registry CRS they resemble, with the
+    `.epsg` of the custom wrapper already read (xr_zeros / wrap_xr / repr do that) or not.  Judged by pyproj equality
+    (they are different CRSs: the source must not come back) and by the projected-pixel enclosure oracle."""
+    import pyproj
+
+    Affine, GeoBox, ov, M, CRS, norm_crs, _pick, resxy_, xy_, AnchorEnum = mods
+    rng = R.rng
+    pool = [(3035, 10.0, 52.0), (32633, 15.0, 47.0), (32755, 147.0, -35.0), (3577, 134.0, -25.0), (5070, -96.0, 38.0), (2193, 173.0, -41.0),
+            (3857, 12.0, 45.0)]
+
+    def lookalike(code, how):
+        d = pyproj.CRS.from_epsg(code).to_json_dict()
+        d.pop("id", None)
+        d.get("conversion", {}).pop("id", None)
+        for prm in d["conversion"]["parameters"]:
+            nm = prm["name"].lower()
+            if how == "meridian" and ("longitude of natural origin" in nm or "longitude of false origin" in nm or "longitude of projection centre" in nm):
+                prm["value"] = prm["value"] + rng.choice([0.5, 1.5, -1.0])
+            if how == "easting" and ("false easting" in nm or "easting at false origin" in nm):
+                prm["value"] = prm["value"] + rng.choice([1000.0, 250000.0])
+        return pyproj.CRS.from_json_dict(d)
+
+    for _ in range(R.pick(10, 120)):
+        code, lon, lat = rng.choice(pool)
+        how = rng.choice(["meridian", "meridian", "easting"])
+        try:
+            lc = lookalike(code, how)
+            if lc == pyproj.CRS.from_epsg(code):
+                continue
+            wkt = lc.to_wkt()
+        except Exception:  # pylint: disable=broad-except
+            continue
+        reg = f"EPSG:{code}"
+        custom_is_src = rng.random() < 0.7
+        epsg_read = rng.random() < 0.75
+        s_spec, d_spec = (wkt, reg) if custom_is_src else (reg, wkt)
+        try:
+            sc = mk_crs(rng, CRS, s_spec, epsg_read if custom_is_src else None)
+            g = make_source(R, mods, lon + rng.uniform(-1, 1), lat + rng.uniform(-1, 1), sc, rng.choice([4e4, 2e5]), rng.choice([40, 120]), False)
+            if custom_is_src and epsg_read and rng.random() < 0.5:
+                from odc.geo import xr as oxr
+
+                oxr.xr_zeros(g, dtype="uint8")  # the usual way a wrapper gets its code looked up
+            dst_arg = d_spec if rng.random() < 0.5 else mk_crs(rng, CRS, d_spec, epsg_read if not custom_is_src else None)
+        except Exception:  # pylint: disable=broad-except
+            continue
+        mode = rng.choice(["auto", "auto", "same", "fit"])
+        case = {"src": f"{tuple(g.shape)} {tuple(g.affine)[:6]} {'look-alike of ' + reg if custom_is_src else reg} ({how})",
+                "dst": (reg if custom_is_src else f"look-alike of {reg}"), "mode": mode, "shape": None, "tight": False, "anchor": "default",
+                "tol": 0.01, "round": None, "class": "look-alike", "epsg_read": epsg_read, "custom_wkt": wkt[:400]}
+        try:
+            out, spy = call_cog(mods, g, dst_arg, mode, None, False, "default", 0.01, None)
+        except Exception as e:  # pylint: disable=broad-except
+            R.oracle(False, "compute-output-raises", case, f"{type(e).__name__}: {e}")
+            continue
+        judge(R, mods, g, d_spec, mode, None, False, "default", 0.01, None, out, spy, case, None, None)
+
+
 # ------------------------------------------------------------------ utm / pick_best
 def utm_part(R: Run, mods):
     Affine, GeoBox, ov, M, CRS, norm_crs, _pick, resxy_, xy_, AnchorEnum = mods
@@ -1610,6 +1671,7 @@ def run(R: Run):
     nonepsg_part(R, mods)
     fastpath_part(R, mods)
     shape_corner_part(R, mods)
+    lookalike_part(R, mods)
     antimeridian_corpus(R, mods)
     utm_matrix_part(R, mods)
     coarse_part(R, mods)
